@@ -977,3 +977,34 @@ def expand(fn, e, depth=0, keep=None):
         else:
             out.append(x)
     return tuple(out)
+
+
+def MAPM(methods):
+    """regex (string) for a method of a std map type, whatever the container (HashMap or BTreeMap)"""
+    return r'(?:HashMap|BTreeMap)::<[^>]*>::(?:%s)$' % methods
+
+
+def SETM(methods):
+    return r'(?:HashSet|BTreeSet)::<[^>]*>::(?:%s)$' % methods
+
+
+REGISTRY_MAP = r'^std::collections::(?:hash_map::|btree_map::)?(?:HashMap|BTreeMap)::<grammar::ItemPath, semantic::types::ItemDefinition>::'
+MODULES_MAP = r'^std::collections::(?:hash_map::|btree_map::)?(?:HashMap|BTreeMap)::<grammar::ItemPath, semantic::module::Module>::'
+
+
+def subst_args(e, args):
+    """rewrite a callee-side expression into the caller's terms: ('arg', i, _) -> args[i-1]"""
+    if not isinstance(e, tuple):
+        return e
+    if e and e[0] == 'arg' and isinstance(e[1], int) and 1 <= e[1] <= len(args):
+        return args[e[1] - 1]
+    out = []
+    for x in e:
+        if isinstance(x, tuple):
+            out.append(subst_args(x, args))
+        elif isinstance(x, list):
+            out.append([(y[0], subst_args(y[1], args)) if (isinstance(y, tuple) and len(y) == 2 and isinstance(y[0], str) and isinstance(y[1], tuple))
+                        else (subst_args(y, args) if isinstance(y, tuple) else y) for y in x])
+        else:
+            out.append(x)
+    return tuple(out)
